@@ -37,7 +37,7 @@ func init() {
 		Rule: "built with -race. For each shared-object kind (type-1, type-2, type-3, type-5 issuer, generic batch issuer, *ecdsa.PrivateKey/PublicKey, ed25519.PrivateKey) a FRESH object (fresh VOPRF key object, so lazily initialised state is untouched) is used by G goroutines released from a barrier, each running a seeded mix of Evaluate/EvaluateBatch/Verify/TokenKeyID/TokenKey/Sign/Verify/Blind* with its own arguments (the ECDSA kinds use keys on two to four different curves at the same moment, the burst kind signs 150 digests back to back per goroutine on three curves); repeated R times per kind, kinds rotated over worker processes so that package-level sync.Once state is first touched concurrently. " +
 			"Oracle: zero race-detector reports (GORACE log, de-duplicated by the outermost pat-go frames of both stacks) and every call's result satisfies its sequential oracle (responses finalize under the caller's own request state to a token valid under the reference verifier, Verify verdicts as expected for valid and bit-flipped tokens, key ids equal the value computed on a second object, signatures verify under the standard library, blinded keys equal the sequential result). " +
 			"distinct_nontrivial = fresh objects on which at least two goroutines were observed inside pat-go at the same time (atomic in-flight counter)",
-		Floors:      []string{"objects_with_overlap", "evaluate_results_ok", "verify_results_ok", "keyid_results_ok", "sign_results_ok", "blind_results_ok", "batch_results_ok", "kind_type1", "kind_type2", "kind_type3", "kind_type5", "kind_batch", "kind_ecdsa", "kind_ecdsa-burst", "kind_ed25519", "tampered_twin_refused", "wide_repetitions_96_goroutines"},
+		Floors:      []string{"unsupported_curve_errors_independent", "objects_with_overlap", "evaluate_results_ok", "verify_results_ok", "keyid_results_ok", "sign_results_ok", "blind_results_ok", "batch_results_ok", "kind_type1", "kind_type2", "kind_type3", "kind_type5", "kind_batch", "kind_ecdsa", "kind_ecdsa-burst", "kind_ed25519", "tampered_twin_refused", "wide_repetitions_96_goroutines"},
 		Assumptions: []string{"the race detector reports conflicting accesses it observes; schedules that did not run are not judged", "each call has its own per-call arguments, as the statement requires"},
 		Race:        true,
 		Run:         runC17,
@@ -802,7 +802,7 @@ func c17ECDSABurst(run *c17Run, seeds [][]byte, rep int) {
 		}
 		if okAll {
 			c.Class("sign_results_ok")
-			c.Class("burst_signatures_ok", "unsupported_curve_errors_independent")
+			c.Class("burst_signatures_ok")
 		}
 	})
 }
